@@ -1,9 +1,63 @@
 import DspVerif.Driver.Proto
-/-! driver handlers for C12 (stub: no correspondence cases handled yet) -/
+import DspVerif.Model.Adaptive
+/-! driver handlers for C12: `LmsFilter<T>` / `RlsFilter<T>` models at `Float`.
+
+Case layout
+* `lms <cx> <nlms> <len> <mu> <leak> <mode> <nframes> { <lock> <x> <d> }*`
+* `rls <cx> <len> <forget> <diag_load> <mode> <nframes> { <lock> <x> <d> }*`
+
+`<x>`, `<d>`: `k v1 … vk` (real) or `k re1 im1 …` (complex).  One filter object is constructed; per frame
+`set_lock_coeffs(lock)` then `process(x, d)` (state persists).
+Output, `mode = 0`: per frame `y e coeffs()` — or `ERR coeffs()` when `process` throws (`len(x) != len(d)`);
+`mode = 1`: `coeffs()` after the last frame only. -/
 namespace Dsp.Driver
-open Dsp.Proto
+open Dsp.Proto Dsp.Adaptive
+
+/-- `nframes` frames `lock x d` -/
+def takeAFrames {τ : Type} (take : List String → Option (Array τ × List String)) :
+    Nat → List String → Option (List (Bool × Array τ × Array τ))
+  | 0, [] => some []
+  | 0, _ => none
+  | n + 1, lk :: toks => do
+    let (x, r1) ← take toks
+    let (d, r2) ← take r1
+    let t ← takeAFrames take n r2
+    pure ((lk == "1", x, d) :: t)
+  | _ + 1, [] => none
+
+/-- run the frames through `step : state → lock → x → d → Except (state × y × e)`; `co` = `coeffs()` -/
+def runAFrames {σ τ : Type} (fmt : Array τ → String) (mode : Nat)
+    (step : σ → Bool → Array τ → Array τ → Except String (σ × Array τ × Array τ)) (co : σ → Array τ)
+    (s0 : σ) (frames : List (Bool × Array τ × Array τ)) : String :=
+  let (sN, outs) := frames.foldl (fun (acc : σ × List String) f =>
+    match step acc.1 f.1 f.2.1 f.2.2 with
+    | .ok (s', y, e) => (s', fmt (co s') :: fmt e :: fmt y :: acc.2)
+    | .error _ => (acc.1, fmt (co acc.1) :: "ERR" :: acc.2)) (s0, [])
+  if mode = 1 then fmt (co sN) else String.intercalate " " outs.reverse
 
 def h12 : List String → Option String
+  | "lms" :: cx :: nlms :: len :: mu :: leak :: mode :: nf :: rest => do
+    let len ← len.toNat?; let mu ← parseF mu; let leak ← parseF leak; let mode ← mode.toNat?; let nf ← nf.toNat?
+    let p : LmsP Float := ⟨len, mu, nlms == "1", leak⟩
+    if cx == "1" then
+      let frames ← takeAFrames takeCxs nf rest
+      some (runAFrames fmtCxArr mode (fun (s : LmsState (Cx Float)) lk x d => lmsProcess p (s.setLock lk) x d)
+        (fun s => s.coeffs) (lmsInit p) frames)
+    else
+      let frames ← takeAFrames takeFloats nf rest
+      some (runAFrames fmtFloatArr mode (fun (s : LmsState Float) lk x d => lmsProcess p (s.setLock lk) x d)
+        (fun s => s.coeffs) (lmsInit p) frames)
+  | "rls" :: cx :: len :: lam :: dl :: mode :: nf :: rest => do
+    let len ← len.toNat?; let lam ← parseF lam; let dl ← parseF dl; let mode ← mode.toNat?; let nf ← nf.toNat?
+    let P : RlsP Float := ⟨len, lam⟩
+    if cx == "1" then
+      let frames ← takeAFrames takeCxs nf rest
+      some (runAFrames fmtCxArr mode (fun (s : RlsState (Cx Float)) lk x d => rlsProcess P (s.setLock lk) x d)
+        (fun s => s.coeffs) (rlsInit P dl) frames)
+    else
+      let frames ← takeAFrames takeFloats nf rest
+      some (runAFrames fmtFloatArr mode (fun (s : RlsState Float) lk x d => rlsProcess P (s.setLock lk) x d)
+        (fun s => s.coeffs) (rlsInit P dl) frames)
   | _ => none
 
 end Dsp.Driver
